@@ -50,8 +50,17 @@ PoolGen == PoolSmall \cup {
   T("nxfer1as2","transfer", "n1", "u1", "this",  "u3", 1, "u2"),   \* signed by u1 with the next nonce of u2
   T("nxfer3as2","transfer", "n1", "u3", "this",  "u3", 1, "u2"),   \* signed by u3 with the next nonce of u2
   T("nxferfor", "transfer", "n1", "u2", "other", "u1", 1, ""),     \* signed by the owner but bound to another chain
-  T("ncall2",   "call",     "n1", "u2", "this",  "c1", 1, "fail")  \* a failing call from the name: fee and nonce of the resolved account only
+  T("ncall2",   "call",     "n1", "u2", "this",  "c1", 1, "fail"), \* a failing call from the name: fee and nonce of the resolved account only
+  \* calls whose code pays the contract's whole balance out to the caller: the payer of a fee-delegated one is left with nothing
+  T("fddrain",  "fdcall",   "u2", "u2", "this",  "c1", 0, "drain"),
+  T("fddrain3", "fdcall",   "u3", "u3", "this",  "c1", 0, "drain"),
+  T("calldrain","call",     "u1", "u1", "this",  "c1", 0, "drain"),
+  T("calldrain2","call",    "u2", "u2", "this",  "c1", 1, "drain")
 }
+\* small pools for the exhaustive design checks of name senders (3 blocks: register, hand over, use) and of draining calls
+PoolNames == {t \in PoolGen : t.tid \in {"name", "nameupd", "nxfer2", "nxfer1", "nxfer2as1", "nameupdbk", "xfer"}}
+PoolDrain == {t \in PoolGen : t.tid \in {"deploy", "callok", "fddrain", "calldrain2"}}
+NextOnly == {"next"}
 AllModes == {"next", "dup", "gap"}
 GenView == [bal |-> bal, nonce |-> nonce, staked |-> staked, total |-> total, owner |-> owner, name0 |-> name0, deployed |-> deployed,
             store |-> store, bpReward |-> bpReward, burnt |-> burnt, blockNo |-> blockNo, inBlock |-> inBlock]
